@@ -277,6 +277,11 @@ func (env *SpecEnv) ident(name string) Val {
 		if g, ok := env.st.ghost[name]; ok {
 			return g
 		}
+		if p, ok := env.fr.captured[name]; ok && p.T != "" {
+			if pt, ok := p.GoT.Underlying().(*types.Pointer); ok {
+				return env.loadRef(p.T, pt.Elem())
+			}
+		}
 		if p, ok := env.fr.entryParams[name]; ok {
 			return p
 		}
